@@ -365,6 +365,325 @@ theorem _root_.KafVerif.C32.partOld_rehash_violates :
   ⟨[.init 7 .sha256 .absent false, .part 1 c1 true, .part 1 c1 false, .complete [(1, .ok)] false .ack],
    ⟨7, [c1, c1]⟩, by decide⟩
 
+/-! ### concurrent part requests: the session lock held across the S3 call makes every schedule serial -/
+
+/-- `b` is a state of the SEQUENTIAL session machine -/
+def Reach (mb : Int) (b : St) : Prop := ∃ ops : List Op, b = (run step (St.init mb) ops).1
+
+theorem run_append (st : St) (xs ys : List Op) :
+    (run step st (xs ++ ys)).1 = (run step (run step st xs).1 ys).1 := by
+  induction xs generalizing st with
+  | nil => rfl
+  | cons x rest ih => simp only [List.cons_append, run]; exact ih _
+
+theorem reach_step {mb : Int} {b : St} (h : Reach mb b) (o : Op) : Reach mb (step b o).1 := by
+  obtain ⟨ops, rfl⟩ := h
+  exact ⟨ops ++ [o], by rw [run_append]; rfl⟩
+
+theorem reach_inv {mb : Int} {b : St} (h : Reach mb b) : Inv b := by
+  obtain ⟨ops, rfl⟩ := h
+  exact run_inv _ ops (inv_init mb)
+
+/-- steps (1)–(3) of a part request that passes the checks and whose S3 call succeeds ARE `doPart` -/
+theorem doPart_of_check {b : St} {s : Sess} {n : Nat} {c : Chunk} (hi : Inv b) (hs : b.sess = some s)
+    (hc : partCheck s n c = none) (ho : b.s3open = true) :
+    (step b (.part n c false)).1 =
+      { b with s3parts := setPart b.s3parts n c,
+               sess := some { s with parts := setPart s.parts n c, hashed := s.hashed ++ [c], total := s.total + c.len } } := by
+  have hk := (hi s hs).keys
+  unfold partCheck at hc
+  by_cases h1 : (lookupPart s.parts n).isSome = true
+  · simp [h1] at hc
+  by_cases h2 : (n != s.nextPart) = true
+  · simp [h1, h2] at hc
+  by_cases h3 : (c.len == 0) = true
+  · simp [h1, h2, h3] at hc
+  by_cases h4 : c.len > minPart
+  · simp [h1, h2, h3, h4] at hc
+  by_cases h5 : s.total + c.len > s.sizeBytes
+  · simp [h1, h2, h3, h4, h5] at hc
+  by_cases h6 : (decide (s.total + c.len < s.sizeBytes) && decide (c.len < minPart)) = true
+  · simp [h1, h2, h3, h4, h5, h6] at hc
+  have hn : n = s.parts.length + 1 := by simpa [Sess.nextPart] using h2
+  have hf : s.parts.filter (·.1 != n) = s.parts := filter_fresh hk hn
+  simp only [step, doPart, doPartWith, hs, Bool.false_eq_true, if_false, h1, h2, h3, h4, h5, h6, ho,
+    Bool.not_true, Bool.or_self, setPart, hf]
+
+/-- invariant of the concurrent machine with the lock held across the S3 call: every request that does not hold
+the lock is idle, and the lock holder is in the middle of a `doPart` that started from a sequential state -/
+def LInv (mb : Int) (cs : CSt) : Prop :=
+  (∀ j, cs.lock ≠ some j → (cs.thr j).pc = 0 ∨ (cs.thr j).pc = 3) ∧
+  match cs.lock with
+  | none => Reach mb cs.base
+  | some i =>
+    ((cs.thr i).pc = 1 ∧ Reach mb cs.base ∧ ∃ s, cs.base.sess = some s ∧ partCheck s (cs.thr i).n (cs.thr i).c = none) ∨
+    ((cs.thr i).pc = 2 ∧ ∃ b0 s, Reach mb b0 ∧ b0.sess = some s ∧ partCheck s (cs.thr i).n (cs.thr i).c = none ∧
+        b0.s3open = true ∧ cs.base = { b0 with s3parts := setPart b0.s3parts (cs.thr i).n (cs.thr i).c })
+
+theorem linv_init (mb : Int) : LInv mb (CSt.init mb) :=
+  ⟨fun _ _ => Or.inr rfl, ⟨[], rfl⟩⟩
+
+theorem holder_of_pc {mb : Int} {cs : CSt} (h : LInv mb cs) {i : Nat}
+    (hp : (cs.thr i).pc = 1 ∨ (cs.thr i).pc = 2) : cs.lock = some i := by
+  cases hl : cs.lock with
+  | none =>
+    have := h.1 i (by simp [hl])
+    omega
+  | some j =>
+    by_cases hij : j = i
+    · rw [hij]
+    · have := h.1 i (by simp [hl]; exact hij)
+      omega
+
+theorem cstep_linv (mb : Int) (cs : CSt) (e : Ev) (h : LInv mb cs) : LInv mb (cstep true cs e).1 := by
+  cases e with
+  | spawn i n c f =>
+    simp only [cstep]
+    split
+    · exact h
+    · rename_i hpc
+      have hpc' : ¬ ((cs.thr i).pc = 1 ∨ (cs.thr i).pc = 2) := by simpa using hpc
+      have hne : cs.lock ≠ some i := by
+        intro hl
+        have h2 := h.2
+        rw [hl] at h2
+        rcases h2 with h2 | h2 <;> omega
+      refine ⟨?_, ?_⟩
+      · intro j hj
+        simp only [setThr]
+        by_cases hji : j = i
+        · simp [hji]
+        · simp only [hji, if_false]; exact h.1 j hj
+      · have h2 := h.2
+        simp only [setThr]
+        cases hl : cs.lock with
+        | none => rw [hl] at h2; exact h2
+        | some k =>
+          rw [hl] at h2
+          have hki : k ≠ i := by intro e; exact hne (by rw [hl, e])
+          simpa [hki] using h2
+  | op o =>
+    simp only [cstep]
+    split
+    · exact h
+    · rename_i hl
+      have hl' : cs.lock = none := by simpa using hl
+      refine ⟨?_, ?_⟩
+      · exact h.1
+      · have h2 := h.2
+        rw [hl'] at h2
+        simp only [hl']
+        exact reach_step h2 o
+  | tick i =>
+    simp only [cstep]
+    split
+    · -- pc = 0
+      rename_i hpc
+      have hpc0 : (cs.thr i).pc = 0 := by simpa using hpc
+      split
+      · exact h
+      · rename_i hl
+        have hl' : cs.lock = none := by simpa using hl
+        have h2 := h.2
+        rw [hl'] at h2
+        have others : ∀ (t : Thr), (t.pc = 0 ∨ t.pc = 3) → ∀ j, cs.lock ≠ some j →
+            ((setThr cs i t).thr j).pc = 0 ∨ ((setThr cs i t).thr j).pc = 3 := by
+          intro t ht j hj
+          simp only [setThr]
+          by_cases hji : j = i
+          · simp [hji, ht]
+          · simp only [hji, if_false]; exact h.1 j hj
+        split
+        · refine ⟨others _ (Or.inr rfl), ?_⟩
+          simp only [setThr, hl']; exact h2
+        · rename_i s hs
+          split
+          · refine ⟨others _ (Or.inr rfl), ?_⟩
+            simp only [setThr, hl']; exact h2
+          · rename_i hck
+            refine ⟨?_, ?_⟩
+            · intro j hj
+              have hji : j ≠ i := by intro e; apply hj; simp [setThr, e]
+              simp only [setThr, hji, if_false]
+              exact h.1 j (by simp [hl'])
+            · simp only [setThr, if_true]
+              exact Or.inl ⟨trivial, h2, s, hs, hck⟩
+    · split
+      · -- pc = 1
+        rename_i _ hpc
+        have hpc1 : (cs.thr i).pc = 1 := by simpa using hpc
+        have hl := holder_of_pc h (Or.inl hpc1)
+        have h2 := h.2
+        rw [hl] at h2
+        rcases h2 with ⟨_, hr, s, hs, hck⟩ | ⟨hp2, _⟩
+        · split
+          · -- S3 call fails: answered 502, lock released, nothing recorded
+            refine ⟨?_, ?_⟩
+            · intro j _
+              simp only [setThr]
+              by_cases hji : j = i
+              · simp [hji]
+              · simp only [hji, if_false]; exact h.1 j (by rw [hl]; simp; exact fun e => hji e.symm)
+            · simp only [setThr]; exact hr
+          · rename_i hf
+            have ho : cs.base.s3open = true := by
+              cases hh : cs.base.s3open <;> simp_all
+            refine ⟨?_, ?_⟩
+            · intro j hj
+              have hji : j ≠ i := by intro e; apply hj; simp [setThr, hl, e]
+              simp only [setThr, hji, if_false]
+              exact h.1 j (by rw [hl]; simp; exact fun e => hji e.symm)
+            · simp only [setThr, hl, if_true]
+              exact Or.inr ⟨trivial, cs.base, s, hr, hs, hck, ho, rfl⟩
+        · omega
+      · split
+        · -- pc = 2
+          rename_i _ _ hpc
+          have hpc2 : (cs.thr i).pc = 2 := by simpa using hpc
+          have hl := holder_of_pc h (Or.inr hpc2)
+          have h2 := h.2
+          rw [hl] at h2
+          rcases h2 with ⟨hp1, _⟩ | ⟨_, b0, s, hr, hs, hck, ho, hb⟩
+          · omega
+          · have hsess : cs.base.sess = some s := by rw [hb]; exact hs
+            have others : ∀ j, (none : Option Nat) ≠ some j →
+                ((if j = i then ({ cs.thr i with pc := 3 } : Thr) else cs.thr j).pc = 0 ∨
+                 (if j = i then ({ cs.thr i with pc := 3 } : Thr) else cs.thr j).pc = 3) := by
+              intro j _
+              by_cases hji : j = i
+              · simp [hji]
+              · simp only [hji, if_false]; exact h.1 j (by rw [hl]; simp; exact fun e => hji e.symm)
+            rw [hsess]
+            refine ⟨others, ?_⟩
+            simp only [setThr]
+            have hd := doPart_of_check (reach_inv hr) hs hck ho
+            have : Reach mb (step b0 (.part (cs.thr i).n (cs.thr i).c false)).1 := reach_step hr _
+            rw [hd] at this
+            rw [hb]
+            exact this
+        · exact h
+
+theorem crun_linv (mb : Int) (cs : CSt) (evs : List Ev) (h : LInv mb cs) : LInv mb (crun true cs evs) := by
+  induction evs generalizing cs with
+  | nil => exact h
+  | cons e rest ih => exact ih _ (cstep_linv mb cs e h)
+
+/-- **C32 (concurrency, linearizability).** With the session lock held from the checks to the recording of the
+part (the code), after EVERY schedule of request arrivals, per-request steps and whole-handler operations, whenever
+the session lock is free the state is a state of the sequential machine: concurrent requests on one upload
+session cannot produce anything a sequential client could not. -/
+theorem _root_.KafVerif.C32.locked_schedules_are_serial (maxBlob : Int) (schedule : List Ev) :
+    (crun true (CSt.init maxBlob) schedule).lock = none →
+      ∃ ops : List Op, (crun true (CSt.init maxBlob) schedule).base = (run step (St.init maxBlob) ops).1 := by
+  intro hl
+  have h := (crun_linv maxBlob _ schedule (linv_init maxBlob)).2
+  rw [hl] at h
+  exact h
+
+/-- **C32 (multipart, concurrent requests).** `http_ok_sound` for every SCHEDULE: part requests of the session
+may overlap arbitrarily (same part number twice, different numbers, with S3 failures), interleaved with
+init / complete / abort / expiry; a completion that is answered (it needs the session lock) with 200 returns an
+envelope whose SHA-256 and size are those of exactly the stored object, acknowledged by the broker. -/
+theorem _root_.KafVerif.C32.http_ok_sound_concurrent (maxBlob : Int) (schedule : List Ev)
+    (list : List (Nat × Etag)) (s3Fails : Bool) (b : Broker) (o : Out) :
+    let cs := crun true (CSt.init maxBlob) schedule
+    let r := cstep true cs (.op (.complete list s3Fails b))
+    r.2 = some o → o.status = 200 →
+      ∃ env, o.env = some env ∧ r.1.base.object = some env.shaOf ∧ dlen env.shaOf = env.size ∧
+        acked b = true ∧ o.produced = true := by
+  intro cs r hr h200
+  have hinv : LInv maxBlob cs := crun_linv maxBlob _ schedule (linv_init maxBlob)
+  cases hl : cs.lock with
+  | some j =>
+    have : r.2 = none := by simp [r, cstep, hl]
+    rw [this] at hr; simp at hr
+  | none =>
+    have h2 := hinv.2
+    rw [hl] at h2
+    have hr2 : r.2 = some (step cs.base (.complete list s3Fails b)).2 := by simp [r, cstep, hl]
+    have hr1 : r.1.base = (step cs.base (.complete list s3Fails b)).1 := by simp [r, cstep, hl]
+    rw [hr2] at hr
+    have ho : (step cs.base (.complete list s3Fails b)).2 = o := by simpa using hr
+    rw [hr1]
+    have := doComplete_sound cs.base list s3Fails b (reach_inv h2) _ _ rfl (by rw [← ho] at h200; exact h200)
+    rw [← ho]
+    exact this
+
+/-- a part request never answers with an envelope, whatever the schedule and the locking -/
+theorem _root_.KafVerif.C32.concurrent_part_never_returns_envelope (hold : Bool) (cs : CSt) (i : Nat) (o : Out)
+    (h : (cstep hold cs (.tick i)).2 = some o) : o.env = none := by
+  simp only [cstep] at h
+  split at h
+  · split at h
+    · simp at h
+    · split at h
+      · simp at h; rw [← h]
+      · split at h
+        · simp at h; rw [← h]
+        · simp at h
+  · split at h
+    · split at h
+      · simp at h; rw [← h]
+      · simp at h
+    · split at h
+      · split at h <;> (simp at h; rw [← h])
+      · simp at h
+
+/-- **witness (split lock, class of seeded change C32-r2-1).** Lock released between the checks and the recording:
+two overlapping PUTs of part 1 (a timeout retry racing the original) both pass the checks, both upload (S3 keeps one
+copy), both are hashed and counted; `complete [1]` answers 200 with an envelope of 2 × 5 MiB whose SHA-256 covers
+the part twice while the object is one part. -/
+theorem _root_.KafVerif.C32.split_lock_violates :
+    ∃ (schedule : List Ev) (list : List (Nat × Etag)) (o : Out) (env : Envelope),
+      let cs := crun false (CSt.init 0) schedule
+      let r := cstep false cs (.op (.complete list false .ack))
+      r.2 = some o ∧ o.status = 200 ∧ o.env = some env ∧ r.1.base.object ≠ some env.shaOf ∧
+        (r.1.base.object.map dlen) ≠ some env.size :=
+  ⟨[.op (.init (2 * minPart) .sha256 .absent false), .spawn 0 1 c5 false, .spawn 1 1 c5 false,
+    .tick 0, .tick 1, .tick 0, .tick 1, .tick 0, .tick 1],
+   [(1, .ok)], ⟨200, some ⟨2 * minPart, [c5, c5]⟩, true⟩, ⟨2 * minPart, [c5, c5]⟩, by decide⟩
+
+/-- the same schedule under the code's locking: the second PUT waits for the lock, is then answered as an idempotent
+re-PUT, and the premature completion is refused -/
+example : (cstep true (crun true (CSt.init 0)
+    [.op (.init (2 * minPart) .sha256 .absent false), .spawn 0 1 c5 false, .spawn 1 1 c5 false,
+     .tick 0, .tick 1, .tick 0, .tick 1, .tick 0, .tick 1]) (.op (.complete [(1, .ok)] false .ack))).2.map (·.status)
+    = some 400 := by decide
+
+/-! ### single request: one attempt per S3 part (class of seeded change C32-r2-2) -/
+
+/-- every scripted UploadPart failure of a part the stream really has ends the request with an error — the code
+makes no second attempt with the consumed request body -/
+theorem _root_.KafVerif.C32.produce_part_fault_is_error (maxBlob : Int) (alg : Alg) (ck : Ck) (body : List Chunk)
+    (k : Nat) (b : Broker) (hk : 1 ≤ k ∧ k ≤ nParts (dlen body)) (hn : minPart ≤ dlen body) :
+    (produce maxBlob alg ck body (.part k) b).status ≠ 200 ∧ (produce maxBlob alg ck body (.part k) b).env = none := by
+  have hu : uploadStream maxBlob body (.part k) = .error 400 ∨ uploadStream maxBlob body (.part k) = .error 502 := by
+    unfold uploadStream
+    have h0 : ¬ (dlen body == 0) = true := by simp [minPart] at hn ⊢; omega
+    have h1 : ¬ dlen body < minPart := by omega
+    have hf : faultPart (dlen body) (.part k) = some k := by simp [faultPart, hk.1, hk.2]
+    have hc : (S3Fault.part k == S3Fault.create) = false := by simp
+    simp only [h0, h1, if_false, hf, hc, Bool.false_eq_true]
+    split
+    · exact Or.inl rfl
+    · exact Or.inr rfl
+  simp only [produce, produceWith]
+  split; simp
+  split; simp
+  rcases hu with hu | hu <;> rw [hu] <;> simp
+
+/-- witness: retrying with the same (consumed) request body after a fail-AFTER-read stores an empty part; the upload
+is reported successful with an envelope that does not describe the object -/
+theorem _root_.KafVerif.C32.retry_consumed_body_violates :
+    ∃ body t, (produceRetry body t).1 = 200 ∧ (produceRetry body t).2.2 ≠ (produceRetry body t).2.1.shaOf ∧
+      dlen (produceRetry body t).2.2 ≠ (produceRetry body t).2.1.size :=
+  ⟨[c5, c1], some ⟨2, true⟩, by decide⟩
+
+/-- a fail-BEFORE-read leaves the body intact: the same retry is harmless there (why only a fake that reads the
+body before failing can tell the difference) -/
+theorem _root_.KafVerif.C32.retry_before_read_harmless (body : List Chunk) (k : Nat) :
+    (produceRetry body (some ⟨k, false⟩)).2.2 = (produceRetry body (some ⟨k, false⟩)).2.1.shaOf := rfl
+
 /-! ### non-vacuity: a well-behaved two-part upload with an acknowledging broker succeeds -/
 
 example : ((run step (St.init 0) [.init (minPart + 7) .md5 .right false, .part 1 c5 false, .part 2 c1 false,
